@@ -148,6 +148,34 @@ def run(chk: Check, model):
     sup = T.subst(r.attr("self", "_supervisor"), {})
     chk.add("C06.rebind", "synchronizer wraps the supervisor given", sup == T.sym("supervisor"), f"self._supervisor = {T.show(sup)}", chk.loc(fi))
 
+    # ------------------------------------------------------------------ who may replace the step chain of a wrapper
+    # Only warmup may rebind async_step, only to the jit / AOT-compiled form of the same method, and only when the caller asked
+    # for it (jit_step): with jit_step=False the Python body of node.step -- its side effects -- must run on every tick.
+    ci = model.cls(NODE)
+    stores = []
+    for mname in ci.methods:
+        mfi = model.func(f"{NODE}.{mname}")
+        rr = ar.eval(mfi.qualname)
+        for e in rr.events:
+            if e.kind == "store_attr" and e.name in ("self.async_step", "self._async_step", "self.push_step") and e.func == mfi.qualname:
+                stores.append((mfi, rr, e))
+    chk.floor("C06.rebind", "rebindings of the wrapper's step chain", len(stores), 2)
+    for mfi, rr, e in stores:
+        ok = mfi.name == "warmup" and e.name == "self.async_step" and flow.equivalent(e.guard, T.sym("jit_step"))
+        if ok:
+            v = e.term
+            if v[0] == "closure" and v[1] in rr.ev.closures:
+                c = rr.ev.closures[v[1]]
+                ok = c.kind == "wrap" and c.wrap == "jax.jit" and c.inner == T.sym("self.async_step")
+            else:
+                # <jit(self.async_step)>.lower(ss).compile()
+                inner = [x for x in T.walk(v) if x[0] == "closure" and x[1] in rr.ev.closures and rr.ev.closures[x[1]].kind == "wrap"
+                         and rr.ev.closures[x[1]].inner == T.sym("self.async_step")]
+                ok = v[0] == "call" and T.call_name(v).endswith(".compile") and bool(inner)
+        chk.add("C06.rebind", f"{mfi.name}: {e.name} rebound only to its own compiled form, only under jit_step", bool(ok),
+                f"{e.name} := {T.show(e.term)[:120]} under {T.show(e.guard)[:80]}: the step chain may only be replaced by jax.jit(self.async_step) (and its AOT compile) when jit_step is set",
+                chk.loc(mfi, e.node))
+
     # ------------------------------------------------------------------ AsyncGraph.run_supervisor
     fi = model.func(f"{GRAPH}.run_supervisor")
     chk.used(fi.qualname)
